@@ -15,12 +15,13 @@ import (
 func init() { register("C07", runC07) }
 
 type mgrSess struct {
-	c       *Ctx
-	names   map[string]string // real uuid -> model name ("g<v>" for generated ones)
-	real    map[string]string // model name -> real uuid
-	known   []string          // model-side uuid names usable as arguments
+	c        *Ctx
+	names    map[string]string // real uuid -> model name ("g<v>" for generated ones)
+	real     map[string]string // model name -> real uuid
+	known    []string          // model-side uuid names usable as arguments
 	assigned []string
-	hist    []string
+	hist     []string
+	nInst    int
 }
 
 func hs(s string) string {
@@ -404,6 +405,46 @@ func runC07(c *Ctx) {
 			var op string
 			var resp Resp
 			createdKey := ""
+			if len(ms.known) > 0 && r.Chance(0.12) {
+				// requests that do not concern the graph: notes, logs, repo description, data instance creation,
+				// renaming and deletion (valid or refused) must leave graph, branch heads and identifier maps alone
+				u := ms.pick(r)
+				real := ms.realOf(u)
+				kind := []string{"note", "node-log", "repo-log", "repo-info", "new-instance", "rename-instance", "delete-instance"}[r.Intn(7)]
+				var resp Resp
+				switch kind {
+				case "note":
+					resp = PostJSON("node/"+real+"/note", map[string]string{"note": "a note"})
+				case "node-log":
+					resp = PostJSON("node/"+real+"/log", map[string]interface{}{"log": []string{"line 1", "line 2"}})
+				case "repo-log":
+					resp = PostJSON("repo/"+real+"/log", map[string]interface{}{"log": []string{"repo line"}})
+				case "repo-info":
+					resp = PostJSON("repo/"+real+"/info", map[string]string{"alias": "renamed", "description": "other"})
+				case "new-instance":
+					ms.nInst++
+					resp = PostJSON("repo/"+real+"/instance", map[string]string{"typename": "keyvalue", "dataname": fmt.Sprintf("kv%d", ms.nInst%3)})
+				case "rename-instance":
+					err := datastore.RenameData(dvid.UUID(real), dvid.InstanceName(fmt.Sprintf("kv%d", r.Intn(3))), dvid.InstanceName(fmt.Sprintf("kv%d", r.Intn(4))), "")
+					resp = Resp{Code: 200}
+					if err != nil {
+						resp = Resp{Code: 400, Body: []byte(err.Error())}
+					}
+				default:
+					err := datastore.DeleteDataByName(dvid.UUID(real), dvid.InstanceName(fmt.Sprintf("kv%d", r.Intn(3))), "")
+					resp = Resp{Code: 200}
+					if err != nil {
+						resp = Resp{Code: 400, Body: []byte(err.Error())}
+					}
+				}
+				ms.hist = append(ms.hist, fmt.Sprintf("%s at %s -> %d", kind, u, resp.Code))
+				c.Count("req.neutral." + kind)
+				if after := ms.implDump(); after != before {
+					c.Report("O", "C07 graph-changed-by "+kind, "a request that does not concern the version graph changed the graph, a branch head or an identifier map",
+						fmt.Sprintf("request: %s at %s -> %s\nbefore:\n%s\nafter:\n%s\nhistory:\n%s", kind, u, resp, before, after, strings.Join(ms.hist, "\n")))
+				}
+				continue
+			}
 			switch k := r.Intn(20); {
 			case k < 2 || len(ms.known) == 0:
 				a := "none"
